@@ -65,6 +65,7 @@ class CInterp(Interp):
         if isinstance(e, ast.Call) and isinstance(e.func, ast.Attribute) and e.func.attr in ('generate_volume', 'generate_surface', 'generate_curve'):
             pdim = {'generate_curve': 1, 'generate_surface': 2, 'generate_volume': 3}[e.func.attr]
             o = Obj('new', pdim, labels=[None] * pdim)
+            self.built = getattr(self, 'built', []) + [o]
             return o
         return Interp.ev(self, e)
 
@@ -85,7 +86,7 @@ def direction_select(direction, rational=False):
                 and isinstance(test.comparators[0], ast.Constant):
             r = direction == test.comparators[0].value
             return r if isinstance(test.ops[0], ast.Eq) else (not r if isinstance(test.ops[0], ast.NotEq) else None)
-        if isinstance(test, ast.Name) and test.id == 'rational':
+        if isinstance(test, ast.Name) and (test.id == 'rational' or test.id.startswith('rational')):
             return rational
         if isinstance(test, ast.Compare) and isinstance(test.ops[0], ast.Is) and 'weights' in norm(test.left):
             return False
@@ -98,9 +99,9 @@ def direction_select(direction, rational=False):
 def final_object(run, fi, it, objname, direction, src):
     """LY3 + AX4 on a freshly built object: declared sizes, degrees, knot vectors and the position of every direction in the
     control net must describe one and the same map target direction -> source direction"""
-    o = it.env.get(objname)
+    o = objname if isinstance(objname, Obj) else it.env.get(objname)
     if not isinstance(o, Obj):
-        raise AnalysisError('%s: constructed object `%s` not found' % (fi.key, objname))
+        raise AnalysisError('%s: constructed object not found' % (fi.key,))
     a = o.attrs
     L = a.get('ctrlpts')
     if isinstance(L, Fresh):
@@ -145,14 +146,16 @@ def construct_rules(m, run, summaries):
             for rational in (False, True):
                 A = Obj('A', pdim)
                 it = CInterp(fi.key, {}, summaries, direction_select(d, rational), A)
-                it.env['size_other'] = it.K
                 it.run(fi.node.body)
                 tag = '[direction %s%s]' % (d, ', rational' if rational else '')
                 emit(run, fi, it, tag)
+                built = getattr(it, 'built', [])
+                if len(built) != 1:
+                    raise AnalysisError('%s: expected exactly one constructed object, found %d' % (fi.key, len(built)))
                 if not rational:
-                    final_object(run, fi, it, objname, d, A)
+                    final_object(run, fi, it, built[0], d, A)
                 else:
-                    o = it.env.get(objname)
+                    o = built[0]
                     L, W = (o.attrs.get('ctrlpts'), o.attrs.get('weights')) if isinstance(o, Obj) else (None, None)
                     L = it.finish(L) if isinstance(L, Fresh) else L
                     W = it.finish(W) if isinstance(W, Fresh) else W
